@@ -188,6 +188,51 @@ def generate_info_cases(drv, res, rng, tier):
                     res.spec_failures.append({"case": [blob.hex(), key_id], "what": "generate-info: key id / key-wrap algorithm / CEK differ"})
 
 
+def cli_cases(res, drv, tier):
+    """encrypt-and-generate and generate-info through the real command line: the key identifier written in decimal and hexadecimal"""
+    from concurrent.futures import ThreadPoolExecutor
+    nums = [12345678, 40022100, 0, 23, 24, 0x40022100, 0xFFFFFFFF, 10000000] if tier == "quick" else common.CLI_NUMBERS
+    cases = [(n, sp, sub) for n in nums for sp in common.spellings(n)[: (2 if tier == "quick" else 4)] for sub in ("encrypt-and-generate", "generate-info")]
+    fw = bytes(range(100))
+    with tempfile.TemporaryDirectory(prefix="verif_c06cli_") as d:
+        fwp, blobp, cekp = os.path.join(d, "fw.bin"), os.path.join(d, "blob.bin"), os.path.join(d, "cek.bin")
+        open(fwp, "wb").write(fw)
+        open(blobp, "wb").write(bytes(range(12)) + bytes(range(16)) + bytes(range(33)))
+        open(cekp, "wb").write(b"")
+
+        def one(k):
+            n, sp, sub = cases[k]
+            outd = os.path.join(d, f"o{k}")
+            os.makedirs(outd)
+            if sub == "encrypt-and-generate":
+                args = ["encrypt", sub, "--firmware", fwp, "--key-name", "aes_key", "--key-id", sp, "--context", aes_keys_dir(), "--kms-script",
+                        str(common.REPO / "ncs" / "basic_kms.py"), "--encrypt-script", str(common.REPO / "ncs" / "encrypt_script.py"), "--output-dir", outd]
+            else:
+                args = ["encrypt", sub, "--encrypted-firmware", blobp, "--encrypted-key", cekp, "--key-id", sp, "--encrypt-script",
+                        str(common.REPO / "ncs" / "encrypt_script.py"), "--output-dir", outd]
+            rc, log = common.run_cli(args, d)
+            files = {f: open(os.path.join(outd, f), "rb").read() for f in os.listdir(outd)}
+            return rc, log, files
+        with ThreadPoolExecutor(max_workers=12) as ex:
+            outs = list(ex.map(one, range(len(cases))))
+    for (n, sp, sub), (rc, log, files) in zip(cases, outs):
+        res.case(["cli-encrypt", sub, n, sp], nontrivial=True)
+        res.count("cli:" + sub)
+        info = files.get("suit_encryption_info.bin")
+        if rc != 0 or info is None:
+            res.spec_failures.append({"cli": "encrypt " + sub, "key_id_argument": sp, "what": f"the command line refused --key-id {sp} (exit {rc})", "log": log[-300:]})
+            continue
+        v = drv.call({"op": "spec.C06", "info": info.hex()})
+        if "ok" not in v or v["ok"]["key_id"] != n:
+            res.spec_failures.append({"cli": "encrypt " + sub, "key_id_argument": sp, "denotes": n, "in_info": v.get("ok", {}).get("key_id"),
+                                      "what": f"--key-id {sp} on the command line: the encryption info does not name key {n}"})
+            continue
+        if sub == "encrypt-and-generate":
+            check_artifacts(drv, files, fw, n, "sha-256", problems := [])
+            for pr in problems:
+                res.spec_failures.append({"cli": "encrypt " + sub, "key_id_argument": sp, "what": pr})
+
+
 def run(tier: str, seed: int, prop=PROP) -> int:
     common.ensure_repo_on_path()
     res = Result(PROP, tier, seed)
@@ -225,6 +270,7 @@ def run(tier: str, seed: int, prop=PROP) -> int:
     generate_info_cases(drv, res, rng, tier)
     from .. import reuse
     reuse.encryptor_reuse(res, PROP)
+    cli_cases(res, drv, tier)
     drv.close()
     return finish(res, st, RULE, NOTE)
 
